@@ -148,8 +148,8 @@ ASSUMPTIONS = [
     "method invoked directly, also on the 2nd and 3rd invocation for Call) rather than proved: the Lean side are dispatch "
     "tables (AUX_THEOREMS) plus denotations of the bindings whose evaluation on samples is compared with the real adapters; "
     "SourceEl has labels only",
-    "known defects reported by this check until fixed: notes/C05_defect_1 (Run(None, run=<not callable>) accepted), "
-    "notes/C05_defect_2 (FillInto.__repr__ raises AttributeError, hiding LenaTypeError of constructors)",
+    "two defects found by this check are fixed in /repo (0ff1b62 Run(None, run=<not callable>) -> LenaTypeError, c6c2b9f "
+    "FillInto.__repr__): notes/C05_defect_1, notes/C05_defect_2; model and oracle expect the fixed behaviour",
 ]
 RULE = ("exhaustive: every pre-processing sequence of length <= 2 over representative elements of the property's kinds "
         "(callable, Variable, Filter, non-negative Slice, RunIf incl. its constructor variants, a second flow-breaking "
@@ -1199,6 +1199,7 @@ def model_requests(case):
         return [{"op": "adapter", "adapter": case["adapter"], "attrs": {n: attr_state(el0, n) for n in names},
                  "callable": bool(callable(el0)), "split": isinstance(el0, lena.core.Split), "none": el0 is None,
                  "name": case.get("name"), "name2": case.get("name2"),
+                 "given_callable": case.get("given", "func") == "func",
                  "el": case["el"] if case["el"]["k"] not in ("split", "sequence", "list", "genfun") else None}]
     raise ValueError(op)
 
@@ -1299,17 +1300,10 @@ def compare(case, res, replies):
         return None
     if op == "adapter":
         ref = adapter_reference(case, res["flags"])
-        if res["flags"].get("given_callable") is False:
-            pass        # the model's `runAccepts` follows the code (defect 1); the oracle holds the documented rule
-        elif m.get("spec_accepts") != (ref != "LenaTypeError"):
+        if m.get("spec_accepts") != (ref != "LenaTypeError"):
             return f"specification side: accepts={m.get('spec_accepts')} vs the documented rule {ref}"
         elif ref != "LenaTypeError" and m.get("spec_binding") != ref:
             return f"specification side: binding {m.get('spec_binding')} vs the documented rule {ref}"
-        if res["flags"].get("given_callable") is False:
-            # Run(None, run=<not callable>): the model transcribes the current code (accepted, mode "given"); after the
-            # proposed fix notes/C05_defect_1 the code raises LenaTypeError: both are accepted here, the ORACLE decides
-            if res["e"] == "LenaTypeError":
-                return None
         if res["e"] is not None or "e" in m:
             return None if res["e"] == m.get("e") else f"impl {res['e']} vs model {m}"
         if m.get("den") is not None and case.get("given", "func") == "func" and _den_norm(m["den"]) != res["obs"]:
@@ -2127,7 +2121,6 @@ LEVEL_TEXT = ("Lean 4 theorems about a transcribed model of the three drivers of
 LEVEL_NOTE = ("Trusted: Lean kernel (+ propext, Classical.choice, Quot.sound), the hand transcription validated by the "
               "correspondence run, generator/islice semantics as transcribed, the JSON protocol. Not proved: sentence 1 "
               "without PreSafe (false), chains with a Slice in which an element raises on a value both drivers evaluate, "
-              "RunIf with a stateful inner sequence, sentence 2 beyond dispatch tables. Two defects of /repo are reported "
-              "until fixed (notes/C05_defect_1, C05_defect_2).")
+              "RunIf with a stateful inner sequence, sentence 2 beyond dispatch tables.")
 TECHNIQUE = "Lean 4 proof over hand-written model + correspondence check (exhaustive small scopes, seeded sampling)"
 DESIGN_REF = "DESIGN.md section 3, C05"
